@@ -335,3 +335,11 @@ def r05_6(ctx):
     c, ins, outs, ni, no = AL.function_ctor(f)
     om = dict(zip(no, [ast.unparse(o) for o in outs]))
     ctx.check(om.get("qf") == "res['qf']", "intg_builtin returns the integrator's quadrature", detail="qf", expected="res['qf']", found=om.get("qf"), fi=f)
+
+
+@rule("R05.7", min_instances=20, desc="running quadratures (layout interpreter, swept over N, M, degree): Q[k+1] and xqk[n] contain exactly the contributions up to their point, for every method")
+def r05_7(ctx):
+    from .layout_rules import shooting_content, collocation_content
+    for cname in ("MultipleShooting", "SingleShooting"):
+        shooting_content(ctx, cname)
+    collocation_content(ctx)
